@@ -1702,7 +1702,9 @@ class Tensor:
 
                 # Shape: [S0, S1, ... SN] -> (S0, S1, ... SN)
                 elif coord_style == "tuple":
-                    curr_shape += (shape,)
+                    # the coordinates (and rank ids) of an already flattened
+                    # rank are concatenated, so its shape must be as well
+                    curr_shape += shape if isinstance(shape, tuple) else (shape,)
                     if i == depth + levels:
                         new_shape.append(curr_shape)
 
